@@ -139,10 +139,10 @@ theorem readers_total (c : Ctx) (st : State) (n : String) :
   · obtain ⟨cell, hc, hg⟩ := getAlways_known st hk
     have hva := isValid_all_known hk
     refine ⟨memoize_total c n, ⟨_, hva⟩, ⟨some (st cell), by simp only [getRegister, hva, hg]⟩, fun S _ => ?_⟩
-    have hv := isValid_some_eq (c := c) (n := n) S (memoTotal_all c n)
+    obtain ⟨b, hv⟩ := isValid_total c n (.some S)
     refine ⟨⟨_, hv⟩, ?_⟩
     simp only [getRegister, hv, hg]
-    cases (validNames c n).any fun a => S.contains a <;> simp
+    cases b <;> simp
   · obtain ⟨h1, _, h3, h4, h5⟩ := unknown_absent c st n hk
     refine ⟨⟨_, h1⟩, ⟨_, h3⟩, ⟨_, h4⟩, fun S hS => ?_⟩
     have : n ∉ S := fun h => hk (hS n h)
@@ -184,22 +184,19 @@ theorem sp_ip_agree (c : Ctx) (st : State) :
 
 /-! ## 5. "validity sets are honoured (also through aliases)" -/
 
-/-- For every table name `n` and every validity set `S` of table names: `n` is valid iff some
-    element of `S` denotes the same register (same cell) — in particular an alias in the set makes
-    the canonical name valid and vice versa — and then `get_register` returns the cell's value,
-    otherwise `None`.
-
-    `hscope` is trivially true for eight contexts.  For SPARC it restricts S to `REGISTERS` names:
-    the current `register_is_valid` of CONTEXT_SPARC looks only for `reg` itself and its canonical
-    name in the set, so an alias IN THE SET (`o6`) does not cover `g_r14` — a genuine defect,
-    exhibited by `sparc_alias_validity_one_way` below and reported as a known finding. -/
+/-- For every table name `n` and every validity set `S` of table names, in EVERY context: `n` is
+    valid iff some element of `S` denotes the same register (same cell) — an alias in the set makes
+    the canonical name and the sibling aliases valid and vice versa — and then `get_register`
+    returns the cell's value, otherwise `None`.
+    (Before `fix:` 4de673d this failed on CONTEXT_SPARC for an alias IN THE SET — `Some({"o6"})` did
+    not cover `g_r14`; the check reported it as a known finding. Reverting the fix makes the table
+    fact `known_valid_names` false.) -/
 theorem validity_honoured (c : Ctx) (st : State) (n : String) (S : List String)
-    (hn : n ∈ knownNames c) (hS : ∀ s ∈ S, s ∈ knownNames c)
-    (hscope : ∀ s ∈ S, aliasScope c s = true) :
+    (hn : n ∈ knownNames c) (hS : ∀ s ∈ S, s ∈ knownNames c) :
     isValid c n (.some S) = .ok (S.any (sameReg c n)) ∧
     ∃ cell, getCell c n = some cell ∧
       getRegister c st n (.some S) = .ok (if S.any (sameReg c n) then some (st cell) else none) := by
-  have hv := isValid_some_sameReg hn hS hscope
+  have hv := isValid_some_sameReg hn hS
   obtain ⟨cell, hc, hg⟩ := getAlways_known st hn
   refine ⟨hv, cell, hc, ?_⟩
   simp only [getRegister, hv, hg]
@@ -211,21 +208,6 @@ theorem validity_all (c : Ctx) (st : State) (n : String) (hn : n ∈ knownNames 
     ∃ cell, getCell c n = some cell ∧ getRegister c st n .all = .ok (some (st cell)) := by
   obtain ⟨cell, hc, hg⟩ := getAlways_known st hn
   exact ⟨isValid_all_known hn, cell, hc, by simp only [getRegister, isValid_all_known hn, hg]⟩
-
-/-- Validity is symmetric in every context but SPARC: `aliasScope` is constantly true there. -/
-theorem aliasScope_trivial (c : Ctx) (h : c ≠ .SPARC) (s : String) : aliasScope c s = true := by
-  cases c <;> first | exact absurd rfl h | rfl
-
-/-- KNOWN FINDING (C18-sparc-alias-in-validity-set): on CONTEXT_SPARC an alias in the validity set
-    is honoured for the alias itself but not for the canonical name of the same register, although
-    both denote the same cell; the other direction works. When context.rs is repaired this theorem
-    fails to check and `validity_honoured`'s `hscope` can be dropped. -/
-theorem sparc_alias_validity_one_way :
-    getCell .SPARC "o6" = getCell .SPARC "g_r14" ∧
-    isValid .SPARC "o6" (.some ["o6"]) = .ok true ∧
-    isValid .SPARC "g_r14" (.some ["o6"]) = .ok false ∧
-    isValid .SPARC "o6" (.some ["g_r14"]) = .ok true := by
-  decide +kernel
 
 /-! ## 6. "the enumerations of registers and of valid registers list exactly the named
       general-purpose registers" -/
@@ -243,9 +225,9 @@ theorem enumerations_registers (c : Ctx) (st : State) :
 
 /-- `MinidumpContext::valid_registers()` lists exactly the `REGISTERS` names that the validity set
     covers — directly or through an alias — in `REGISTERS` order, with their values; under `All`
-    it is `registers()`.  (`hscope`: see `validity_honoured`.) -/
+    it is `registers()`. -/
 theorem enumerations_valid (c : Ctx) (st : State) (S : List String)
-    (hS : ∀ s ∈ S, s ∈ knownNames c) (hscope : ∀ s ∈ S, aliasScope c s = true) :
+    (hS : ∀ s ∈ S, s ∈ knownNames c) :
     (∃ vs, mdValidRegisters c st (.some S) = .ok vs ∧
        vs.map (·.1) = (registers c).filter (fun r => S.any (sameReg c r)) ∧
        ∀ p ∈ vs, getAlways c st p.1 = .ok p.2) ∧
@@ -254,7 +236,7 @@ theorem enumerations_valid (c : Ctx) (st : State) (S : List String)
   constructor
   · obtain ⟨vs, h1, h2, h3⟩ := mdValidFrom_ok c st (.some S) (fun r => S.any (sameReg c r)) (registers c)
       (fun n hn => known_of_registers hn)
-      (fun n hn => isValid_some_sameReg (known_of_registers hn) hS hscope)
+      (fun n hn => isValid_some_sameReg (known_of_registers hn) hS)
     exact ⟨vs, by unfold mdValidRegisters; rw [gpr_registers]; exact h1, h2, h3⟩
   · obtain ⟨vs, h1, h2, h3⟩ := mdValidFrom_ok c st .all (fun _ => true) (registers c)
       (fun n hn => known_of_registers hn)
@@ -279,12 +261,16 @@ example : memoize .ARM64 "x30" = .ok (some "lr") ∧ memoize .ARM64 "lr" = .ok (
 example : memoize .SPARC "i7" = .ok (some "g_r31") ∧ memoize .SPARC "g_r31" = .ok (some "g_r31") := by decide +kernel
 -- `unknown_absent`: names outside the table exist (also near-misses of the SPARC alias shape)
 example : "o8" ∉ knownNames .SPARC ∧ "r16" ∉ knownNames .ARM ∧ "" ∉ knownNames .X86 := by decide +kernel
--- `validity_honoured` / `enumerations_valid`: a set holding an alias, inside scope, that makes a
--- canonical name valid; and a SPARC set of canonical names covering an alias
-example : (∀ s ∈ ["r11"], s ∈ knownNames .ARM) ∧ (∀ s ∈ ["r11"], aliasScope .ARM s = true) ∧
+-- `validity_honoured` / `enumerations_valid`: a set of table names holding an ALIAS that makes the
+-- canonical name valid (and leaves another register invalid) — ARM, and SPARC in both directions
+example : (∀ s ∈ ["r11"], s ∈ knownNames .ARM) ∧
     ["r11"].any (sameReg .ARM "fp") = true ∧ ["r11"].any (sameReg .ARM "sp") = false := by decide +kernel
-example : (∀ s ∈ ["g_r14"], s ∈ knownNames .SPARC) ∧ (∀ s ∈ ["g_r14"], aliasScope .SPARC s = true) ∧
-    ["g_r14"].any (sameReg .SPARC "o6") = true := by decide +kernel
+example : (∀ s ∈ ["o6"], s ∈ knownNames .SPARC) ∧ "g_r14" ∈ knownNames .SPARC ∧
+    ["o6"].any (sameReg .SPARC "g_r14") = true ∧ ["g_r14"].any (sameReg .SPARC "o6") = true ∧
+    ["o6"].any (sameReg .SPARC "g_r15") = false := by decide +kernel
+-- the repaired SPARC rule computes exactly that (regression of C18-sparc-alias-in-validity-set)
+example : isValid .SPARC "g_r14" (.some ["o6"]) = .ok true ∧ isValid .SPARC "i6" (.some ["o6"]) = .ok false := by
+  decide +kernel
 -- sp/ip names are distinct registers (swapping them is not invisible)
 example : ∀ c ∈ Ctx.all, sameReg c (spName c) (ipName c) = false := by decide +kernel
 
